@@ -180,6 +180,7 @@ func TestExpiryBounds(t *testing.T) {
 						if ev.Never {
 							ev.Before = read()
 							time.Sleep(time.Hour)
+							be.Cleanup() // a janitor cycle (the cache also holds entries with a context TTL) leaves it alone
 							ev.At = read()
 							time.Sleep(200 * 365 * 24 * time.Hour)
 							ev.After = read()
